@@ -1,12 +1,12 @@
 use crate::runner::Monitor;
 
 pub mod c14;
+pub mod c16;
 
 pub fn by_id(id: &str) -> Option<Box<dyn Monitor>> {
     Some(match id {
         "C14" => Box::new(c14::C14),
+        "C16" => Box::new(c16::C16),
         _ => return None,
     })
 }
-
-pub const ALL: &[&str] = &["C14"];
